@@ -38,6 +38,26 @@ func init() {
 		}
 		// 1. in-process streams: cancellation / deadline at every position of random schedules
 		ltsCases(o, r, profile{name: "cancel", rounds: [2]int{5, 14}, cancel: 100, handlerEnd: 35, headers: 30, kinds: []string{"BD", "SS", "CS"}, returnCodes: []int64{0, 5, -2, -1}}, n)
+		// 1b. a handler that returns a bare context error (of a context of its own, the call's being live):
+		// the client sees the Canceled / DeadlineExceeded status whichever receive or Header() call meets it
+		ltsCases(o, r, profile{name: "raw_ctx_error", rounds: [2]int{4, 10}, cancel: 10, handlerEnd: 80, headers: 70, kinds: []string{"BD", "SS", "CS"}, returnCodes: []int64{-3, -4, -3, -4, -2}}, n/2)
+		// written-out schedules: the handler's failure is the first frame and meets Header() or RecvMsg
+		var corpus [][]sOp
+		H := func(k string, x int64) sOp { return sOp{actor: "H", kind: k, x: x} }
+		CR := func(k string) sOp { return sOp{actor: "CR", kind: k} }
+		for _, code := range []int64{-3, -4, -2, -1, 5} {
+			corpus = append(corpus,
+				[]sOp{H("HReturn", code), CR("CHeader"), CR("CRecv"), CR("CRecv"), CR("CTrailer")},
+				[]sOp{CR("CHeader"), H("HReturn", code), CR("CRecv"), CR("CHeader"), CR("CRecv")},
+				[]sOp{H("HReturn", code), CR("CRecv"), CR("CHeader"), CR("CRecv")},
+				[]sOp{CR("CRecv"), H("HReturn", code), CR("CRecv"), CR("CHeader")},
+				[]sOp{{actor: "H", kind: "HSetTrailer", md: []int64{1}}, H("HReturn", code), CR("CHeader"), CR("CRecv"), CR("CTrailer")},
+				[]sOp{{actor: "H", kind: "HSetHeader", md: []int64{1}}, H("HReturn", code), CR("CHeader"), CR("CRecv"), CR("CRecv")},
+				[]sOp{H("HSend", 101), H("HReturn", code), CR("CHeader"), CR("CRecv"), CR("CRecv"), CR("CRecv")},
+				[]sOp{H("HReturn", code), {actor: "ENV", kind: "Cancel"}, CR("CHeader"), CR("CRecv"), CR("CRecv")},
+			)
+		}
+		ltsFixed(o, "first_frame_failure", []string{"BD", "SS", "CS"}, corpus)
 		id := 0
 		// 2. in-process unary: cancellation racing completion -- the complete result or the status, never a mixture
 		iters := 3000
@@ -226,6 +246,47 @@ func init() {
 					o.Violate("the handler's context was not cancelled when the caller's ended", d, nil, nil)
 				}
 				checked(o, "handler_ctx_cancelled_"+t.name, id, ok, d)
+			}
+			t.stop()
+		}
+
+		// 4b. short deadlines, many times: over HTTP the server's own timer (from GRPC-Timeout) and the caller's
+		// deadline end within a millisecond of each other, in either order; whichever the client meets first,
+		// the pending and the later receive return DeadlineExceeded as a status
+		honour := &hx.Svc{Stream: func(kind string, ss grpc.ServerStream) error {
+			<-ss.Context().Done()
+			return ss.Context().Err()
+		}}
+		for _, t := range bothTransports(honour) {
+			rounds := 12
+			if thorough {
+				rounds = 60
+			}
+			for _, kind := range []string{"SS", "CS"} {
+				bad := ""
+				for k := 0; k < rounds && bad == ""; k++ {
+					ctx, cancel := context.WithTimeout(context.Background(), 20*time.Millisecond)
+					cs, e := t.ch.NewStream(ctx, hx.StreamDescOf(kind), "/verif.Svc/"+kind)
+					if e == nil {
+						cs.SendMsg(&hx.Msg{})
+						cs.CloseSend()
+						e1 := cs.RecvMsg(&hx.Msg{})
+						e2 := cs.RecvMsg(&hx.Msg{})
+						runtime.KeepAlive(cs)
+						if !isCtxStatus(e1, codes.DeadlineExceeded) || !isCtxStatus(e2, codes.DeadlineExceeded) {
+							bad = fmt.Sprintf("round %d: pending receive %v, later receive %v", k, e1, e2)
+						}
+					} else if !isCtxStatus(e, codes.DeadlineExceeded) {
+						bad = fmt.Sprintf("round %d: NewStream %v", k, e)
+					}
+					cancel()
+				}
+				id++
+				d := map[string]interface{}{"transport": t.name, "kind": kind, "deadline": "20ms", "rounds": rounds, "handler": "returns its context's error as soon as that context ends", "first_bad": bad}
+				if bad != "" {
+					o.Violate("a receive on a call whose deadline passed did not return the DeadlineExceeded status", d, bad, "DeadlineExceeded")
+				}
+				checked(o, "short_deadline_"+t.name, id, bad == "", d)
 			}
 			t.stop()
 		}
